@@ -112,7 +112,7 @@ func (e *Env) RParseGuard() {
 	nCalls := 0
 	ast.Inspect(fd.Body, func(n ast.Node) bool {
 		call, ok := n.(*ast.CallExpr)
-		if !ok || !schema.IsMethod(c.Callee(call), load.PkgDecorator, "Decorator", "DecorateFile") || len(call.Args) != 1 {
+		if !ok || len(call.Args) != 1 || !(schema.IsMethod(c.Callee(call), load.PkgDecorator, "Decorator", "DecorateFile") || schema.IsMethod(c.Callee(call), load.PkgDecorator, "Decorator", "DecorateNode")) {
 			return true
 		}
 		nCalls++
@@ -136,7 +136,7 @@ func (e *Env) RParseGuard() {
 			"DecorateFile(f) is reachable under `"+cond+"`, which allows f == nil with a parse error (broken input: empty file, no package clause): decorating a nil *ast.File dereferences it")
 		return true
 	})
-	e.Run.Floor("R-NOPANIC", "DecorateFile calls in ParseFile", nCalls, 1)
+	e.Run.Floor("R-NOPANIC", "decorate calls in ParseFile", nCalls, 1)
 	rets, okr := returnsOf(c, fd)
 	if !okr {
 		e.Run.Undecided("R-NOPANIC", "ParseFile returns", e.Prog.Pos(fd.Pos()), "path condition not computable")
